@@ -12,3 +12,4 @@ LEVEL_NOTE = "Trusts the pyvc encoding, z3/cvc5 and the dependency raise-sets (a
 TECHNIQUE = "contract-based deductive verification (VCs from the ast of the real generator, z3/cvc5) + bounded cross-mode sweep with fault injection"
 UNITS = [VIO.unit_reader_rows(), VIO.unit_validate_row(), VIO.unit_module_rows_validate(), FX.unit_fixed_rows(), RD.unit_delimited_rows(), M.unit_modes_sweep()]
 UNITS += [VIO.unit_reader_init(), VIO.unit_validate_rows()]
+UNITS += [RD.unit_as_delimited_keywords().also("C06")]
